@@ -1023,6 +1023,46 @@ func (e *Env) avoidKeyProvenance(lit *ast.FuncLit) {
 	pkg := e.Prog.Pkg(load.PkgDecorator)
 	info := pkg.TypesInfo
 	defsRoot := lit.Body
+	// parameters of local closures and of marking functions, with the arguments of their calls
+	paramArgs := map[types.Object][]ast.Expr{}
+	{
+		lits := map[types.Object]*ast.FuncLit{}
+		ast.Inspect(lit.Body, func(nd ast.Node) bool {
+			if as, ok := nd.(*ast.AssignStmt); ok && len(as.Lhs) == 1 && len(as.Rhs) == 1 {
+				if fl, ok := as.Rhs[0].(*ast.FuncLit); ok {
+					if id, ok := as.Lhs[0].(*ast.Ident); ok && info.Defs[id] != nil {
+						lits[info.Defs[id]] = fl
+					}
+				}
+			}
+			return true
+		})
+		ast.Inspect(lit.Body, func(nd ast.Node) bool {
+			call, ok := nd.(*ast.CallExpr)
+			if !ok {
+				return true
+			}
+			var params []*ast.Ident
+			if id, ok := call.Fun.(*ast.Ident); ok && lits[info.Uses[id]] != nil {
+				for _, f := range lits[info.Uses[id]].Type.Params.List {
+					params = append(params, f.Names...)
+				}
+			} else if mk := e.markingFuncOf(pkg, call); mk != nil {
+				for _, f := range mk.decl.Type.Params.List {
+					params = append(params, f.Names...)
+				}
+			}
+			if len(params) != len(call.Args) {
+				return true
+			}
+			for i, pid := range params {
+				if o := info.Defs[pid]; o != nil {
+					paramArgs[o] = append(paramArgs[o], call.Args[i])
+				}
+			}
+			return true
+		})
+	}
 	kindOf := func(x ast.Expr) string {
 		seen := map[types.Object]bool{}
 		var walk func(x ast.Expr, depth int) string
@@ -1073,6 +1113,16 @@ func (e *Env) avoidKeyProvenance(lit *ast.FuncLit) {
 						return true
 					}
 					seen[o] = true
+					// a parameter of a closure or marking function: what the calls hand it, read
+					// in the per-file pass
+					if args := paramArgs[o]; len(args) > 0 {
+						savedRoot := defsRoot
+						defsRoot = lit.Body
+						for _, a := range args {
+							merge(walk(a, depth+1))
+						}
+						defsRoot = savedRoot
+					}
 					// definitions of the local, and the bound of a loop that counts it
 					ast.Inspect(defsRoot, func(m ast.Node) bool {
 						switch st := m.(type) {
